@@ -1,8 +1,159 @@
-(* C27 — theorems being added *)
+(* C27 — genesis state contains exactly the configured allocations and initial metadata.
+
+   Model: Model/Genesis.v [genesis_state] = chain/genesis.go:NewGenesisCommit with
+   genesis/genesis.go:DefaultGenesis.InitializeState, run through the state-view model (Model/Tstate.v);
+   its result is the committed diff over the EMPTY database, i.e. the whole genesis state
+   ([Some (Some v)] = key holds v, [None] = key absent).  Check/C27_check.v compares exactly this map with
+   the full dump of the real genesis database.  Proofs: Proofs/Genesis_proofs.v.
+
+   The merkle root is not modelled (merkledb is in the trusted base as "a finite map"); that the root
+   recorded in the genesis block equals the root of the committed view is observed on every run by the
+   driver ([root_ok] in C27_check.spec_ok).  What is proved here about the root (C27_root, C27_root_order_independent) is that the
+   state it is computed from is exactly [genesis_map] and does not depend on the order in which the
+   allocations are listed. *)
 From stdpp Require Import gmap.
-From Coq Require Import NArith.
-From HV Require Import Lib.U64 Model.Keys Model.Tstate Model.Fees Model.Chain Model.Genesis.
-Theorem C27_supply_overflow_rejected : forall s supply k b rest,
-  add_chk supply b = None -> init_state s supply ((k, b) :: rest) = None.
-Proof. intros s supply k b rest H. cbn [init_state]. rewrite H. reflexivity. Qed.
+From Coq Require Import NArith ZArith Lia.
+From HV Require Import Lib.Bytes Lib.U64 Model.Keys Model.Tstate Model.Fees Model.Chain Model.Genesis
+                       Proofs.Genesis_proofs.
+From HV Require Check.C27_check.
+Local Open Scope N_scope.
+
+(* Exactness.  If NewGenesisCommit succeeds, then for EVERY key k the genesis state holds:
+   the encoded fee manager under the fee key, be64 0 under the timestamp and height keys, the 8-byte
+   big-endian per-address total (duplicates summed, zero totals written as eight zero bytes) under the
+   balance key of every listed address, and nothing under any other key. *)
+Theorem C27_exact : forall mk min_price allocs m,
+  genesis_state mk min_price allocs = Some m ->
+  forall k,
+    m !! k =
+      if bytes_eqb k (mk_fee mk) then Some (Some (encode (genesis_manager min_price)))
+      else if bytes_eqb k (mk_ts mk) then Some (Some (be64 0))
+      else if bytes_eqb k (mk_height mk) then Some (Some (be64 0))
+      else if mentioned k allocs then Some (Some (be64 (sum_for k allocs)))
+      else None.
+Proof.
+  intros mk mp allocs m H k. etransitivity; [exact (genesis_state_exact mk mp allocs m H k)|]. unfold genesis_spec.
+  repeat match goal with |- context [if ?b then _ else _] => destruct b end; reflexivity.
+Qed.
+Print Assumptions C27_exact.
+
+(* The fee manager written at genesis: timestamp 0, unit prices = the minimum prices, empty windows,
+   nothing consumed; and its byte layout (the value C27_check.spec_ok expects under the fee key). *)
+Theorem C27_fee_manager : forall min_price,
+  m_ts (genesis_manager min_price) = 0
+  /\ unit_prices (genesis_manager min_price) = map (dget min_price) idx5
+  /\ (forall k, m_window (genesis_manager min_price) k = zero_window)
+  /\ units_consumed (genesis_manager min_price) = dzero
+  /\ encode (genesis_manager min_price)
+     = be64 0 ++ flat_map (fun k => be64 (dget min_price k) ++ repeat 0 88%nat) idx5.
+Proof.
+  intros mp. split; [apply genesis_manager_ts|]. split; [apply genesis_manager_prices|].
+  split; [apply genesis_manager_windows|]. split; [apply genesis_manager_consumed | apply genesis_manager_bytes].
+Qed.
+Print Assumptions C27_fee_manager.
+
+(* Complete characterisation (success condition AND content): NewGenesisCommit succeeds exactly when the
+   total supply fits in a uint64 and every written key can hold its value (keys.VerifyValue), and then its
+   state is the explicitly constructed map [genesis_map]. *)
+Theorem C27_complete : forall mk min_price allocs,
+  genesis_state mk min_price allocs
+  = if (total allocs <=? MaxU64)
+       && forallb (fun a => verify_value_len (fst a) 8) allocs
+       && verify_value_len (mk_height mk) 8 && verify_value_len (mk_ts mk) 8
+       && verify_value_len (mk_fee mk) 488
+    then Some (<[mk_fee mk := Some (encode (genesis_manager min_price))]>
+                (<[mk_ts mk := Some (be64 0)]>
+                  (<[mk_height mk := Some (be64 0)]>
+                    (list_to_map (map (fun a => (fst a, Some (be64 (sum_for (fst a) allocs)))) allocs)))))
+    else None.
+Proof.
+  intros mk mp allocs. rewrite genesis_state_char. unfold genesis_ok. rewrite verify_fee_key. reflexivity.
+Qed.
+Print Assumptions C27_complete.
+
+(* Overflow: a configuration whose total supply exceeds 2^64-1 is rejected ... *)
+Theorem C27_overflow_rejected : forall mk min_price allocs,
+  MaxU64 < total allocs -> genesis_state mk min_price allocs = None.
+Proof. exact genesis_total_overflow. Qed.
+Print Assumptions C27_overflow_rejected.
+
+(* ... in particular when the allocations of one address alone overflow ... *)
+Theorem C27_address_overflow_rejected : forall mk min_price allocs k,
+  MaxU64 < sum_for k allocs -> genesis_state mk min_price allocs = None.
+Proof. exact genesis_address_overflow. Qed.
+Print Assumptions C27_address_overflow_rejected.
+
+(* ... and the loop of InitializeState itself rejects, from ANY view and any running supply, as soon as
+   the running supply plus the remaining allocations overflows (the overflowing allocation can be at any
+   position of the list). *)
+Theorem C27_supply_overflow_rejected : forall s supply allocs,
+  supply <= MaxU64 -> MaxU64 < supply + total allocs -> init_state s supply allocs = None.
+Proof. intros s supply allocs. apply init_state_overflow. Qed.
 Print Assumptions C27_supply_overflow_rejected.
+
+(* Root.  For any function [root] of the state content (the merkle root is one: trusted base), the root of
+   the state produced by NewGenesisCommit is the root of [genesis_map], whose content C27_exact describes. *)
+Theorem C27_root : forall (R : Type) (root : gmap key (option val) -> R) mk min_price allocs m,
+  genesis_state mk min_price allocs = Some m ->
+  root m = root (genesis_map mk min_price allocs).
+Proof.
+  intros R root mk mp allocs m H. rewrite genesis_state_char in H.
+  destruct (genesis_ok mk mp allocs); [|discriminate]. inversion H. reflexivity.
+Qed.
+Print Assumptions C27_root.
+
+(* ... and it does not depend on the order of the configured allocations (nor does acceptance). *)
+Theorem C27_root_order_independent : forall mk min_price allocs allocs',
+  Permutation allocs allocs' -> genesis_state mk min_price allocs = genesis_state mk min_price allocs'.
+Proof. exact genesis_state_perm. Qed.
+Print Assumptions C27_root_order_independent.
+
+(* The vocabulary of these theorems is the vocabulary of the executable specification that
+   Check/C27_check.v evaluates on the real database dump. *)
+Theorem C27_checker_vocabulary : forall (allocs : list (list N * N)) (k : list N) (min_price : list N),
+  C27_check.sum_for k allocs = sum_for k allocs
+  /\ C27_check.total allocs = total allocs
+  /\ C27_check.mentioned k allocs = mentioned k allocs
+  /\ C27_check.expected_fee_bytes min_price = encode (genesis_manager min_price).
+Proof.
+  intros allocs k mp. split; [|split; [|split]].
+  - induction allocs as [|[k' b] rest IH]; cbn [C27_check.sum_for sum_for]; [reflexivity|]. rewrite IH. reflexivity.
+  - apply total_fold_left.
+  - reflexivity.
+  - rewrite genesis_manager_bytes. reflexivity.
+Qed.
+Print Assumptions C27_checker_vocabulary.
+
+(* ---------------------------------------------------------------- non-vacuity *)
+
+Definition ex_mk : meta_keys := mkMeta [0; 0; 1] [1; 0; 1] [2; 0; 8].
+Definition ex_mp : dims := [100; 100; 100; 100; 100].
+Definition acctA : key := [0; 65; 0; 1].
+Definition acctB : key := [0; 66; 0; 1].
+(* duplicates, a zero allocation, a zero total *)
+Definition ex_allocs : list (key * N) := [(acctA, 5); (acctB, 0); (acctA, 7); (acctA, 0)].
+
+Example C27_exact_nonvacuous : exists m, genesis_state ex_mk ex_mp ex_allocs = Some m
+  /\ m !! acctA = Some (Some (be64 12)) /\ m !! acctB = Some (Some (be64 0)) /\ m !! [0; 67; 0; 1] = None
+  /\ size m = 5%nat.
+Proof. eexists. split; [vm_compute; reflexivity|]. vm_compute. auto. Qed.
+
+Example C27_overflow_nonvacuous :
+  MaxU64 < total [(acctA, MaxU64); (acctB, 1)]
+  /\ genesis_state ex_mk ex_mp [(acctA, MaxU64); (acctB, 1)] = None
+  /\ MaxU64 < sum_for acctA [(acctA, MaxU64 - 1); (acctB, 0); (acctA, 2)]
+  /\ genesis_state ex_mk ex_mp [(acctA, MaxU64 - 1); (acctB, 0); (acctA, 2)] = None.
+Proof. vm_compute. auto. Qed.
+
+Example C27_supply_overflow_nonvacuous :
+  init_state (new_view ts_new ScopeAll ∅) 0 [(acctA, 5); (acctB, MaxU64 - 5); (acctA, 1)] = None
+  /\ 0 + total [(acctA, 5); (acctB, MaxU64 - 5); (acctA, 1)] = MaxU64 + 1.
+Proof. vm_compute. auto. Qed.
+
+Example C27_order_nonvacuous :
+  Permutation ex_allocs [(acctA, 0); (acctA, 7); (acctB, 0); (acctA, 5)]
+  /\ genesis_state ex_mk ex_mp ex_allocs <> None.
+Proof.
+  split; [|vm_compute; discriminate]. unfold ex_allocs.
+  apply (Permutation_rev [(acctA, 5); (acctB, 0); (acctA, 7); (acctA, 0)]).
+Qed.
